@@ -13,8 +13,12 @@
  * registers with atexit(); it cannot be re-created after `mp_exit`/`end`, so pool cases need one process each
  * (bb_fresh) and further pool ops after the exit handler ran answer `skip`.
  *
- * Pools: MPOOL is instantiated with the cache sizes 1, 2, 3 and 4 (CTASSERT(size > 0) allows 1); `mp_init <size>`
- * ends the pool in use (as `mp_exit` does) and takes the one of that size; a case starts with size 4.
+ * Pools: MPOOL is instantiated with the cache sizes 1, 2, 3 and 4 (CTASSERT(size > 0) allows 1); a case starts with
+ * size 4 in use.  `mp_use <size>` switches the pool in use and nothing else, so several pools are alive and interleaved
+ * in one case; every object handed out remembers its pool, and `mp_free`/`mp_freenth` only see the objects of the pool
+ * in use.  `mp_exit` (also `end`, `case`, `mp_init`) is process exit for ALL pools: every exit handler the library
+ * registered runs, every cached object of every pool must be gone, all four pools are put back into their load-time
+ * state.  `mp_init <size>` = that, then take the pool of that size.
  */
 #include "hcommon.h"
 #include "hwrap.h"
@@ -78,9 +82,9 @@ static struct elasticqueue * EQ = NULL;
 static size_t eq_reclen = 0;
 static struct seqptrmap * SM = NULL;
 
-/* pool objects handed out: id -> pointer, in-use flag */
+/* pool objects handed out: id -> pointer, in-use flag, owning pool (mp_size when it was handed out) */
 #define MAXOBJ 65536
-static struct { void * p; uint64_t id; int inuse; } pobjs[MAXOBJ];
+static struct { void * p; uint64_t id; int inuse; size_t pool; } pobjs[MAXOBJ];
 static size_t npobjs = 0;
 
 #define DATAMAX ((size_t)1 << 22)
@@ -150,26 +154,32 @@ sm_l2(void)
 	l2_common();
 }
 
-/* record and static stack of the pool in use */
+/* record and static stack of the pool of cache size k; record of the pool in use */
+static struct mpool *
+pool_rec_k(size_t k)
+{
+
+	return (k == 1 ? &mpool_t1_rec : k == 2 ? &mpool_t2_rec : k == 3 ? &mpool_t3_rec : &mpool_t_rec);
+}
+
+static void **
+pool_static_k(size_t k)
+{
+
+	return (k == 1 ? mpool_t1_static : k == 2 ? mpool_t2_static : k == 3 ? mpool_t3_static : mpool_t_static);
+}
+
 static struct mpool *
 pool_rec(void)
 {
 
-	return (mp_size == 1 ? &mpool_t1_rec : mp_size == 2 ? &mpool_t2_rec : mp_size == 3 ? &mpool_t3_rec : &mpool_t_rec);
-}
-
-static void **
-pool_static(void)
-{
-
-	return (mp_size == 1 ? mpool_t1_static : mp_size == 2 ? mpool_t2_static : mp_size == 3 ? mpool_t3_static :
-	    mpool_t_static);
+	return (pool_rec_k(mp_size));
 }
 
 /*
  * The exit handlers the pools registered with atexit() (library calls of atexit() go to the wrapper, which records them
- * instead of performing them).  At the end of a case the harness does what process exit would do: it runs a pool's
- * handler if -- and only if -- the library registered it.
+ * instead of performing them).  At an exit the harness does what process exit would do: it runs every handler the
+ * library registered (and no other), each function once, last registered first.
  */
 static void (* wb_exitfn[16])(void);
 static int wb_nexitfn = 0;
@@ -186,31 +196,17 @@ static void
 pool_atexit(void)
 {
 	void (* fn)(void);
-	int i, registered = 0;
+	int i;
 
-	switch (mp_size) {
-	case 1:
-		fn = mpool_t1_atexit;
-		break;
-	case 2:
-		fn = mpool_t2_atexit;
-		break;
-	case 3:
-		fn = mpool_t3_atexit;
-		break;
-	default:
-		fn = mpool_t_atexit;
-		break;
+	while (wb_nexitfn > 0) {
+		fn = wb_exitfn[--wb_nexitfn];
+		/* a function recorded more than once runs once */
+		for (i = 0; i < wb_nexitfn; i++)
+			if (wb_exitfn[i] == fn)
+				break;
+		if (i == wb_nexitfn)
+			fn();
 	}
-	for (i = 0; i < wb_nexitfn; i++) {
-		if (wb_exitfn[i] == fn) {
-			registered = 1;
-			wb_exitfn[i] = wb_exitfn[--wb_nexitfn];
-			i--;
-		}
-	}
-	if (registered)
-		fn();
 }
 
 static void
@@ -237,11 +233,14 @@ ea_l1(const char * st)
 	printf("%s sz=%zu al=%zu rf=%u", st, EA_SIZE(), EA_ALLOC(), hw_rf());
 }
 
-/* Run the pool's exit handler, release the objects still in use, re-create the initial pool. */
+/* Process exit for all pools: run the registered exit handlers, release the objects still in use, re-create the pools. */
 static size_t
 pool_exit(void)
 {
 	size_t i, leaked = 0;
+#ifndef HC_BLACKBOX
+	size_t k;
+#endif
 
 #ifdef HC_BLACKBOX
 	/* the handlers run once (as at process exit); afterwards the pools are gone for good */
@@ -253,7 +252,7 @@ pool_exit(void)
 #else
 	LIB(pool_atexit());
 #endif
-	/* every object that is not in use must be gone now */
+	/* every object (of any pool) that is not in use must be gone now */
 	for (i = 0; i < npobjs; i++)
 		if (!pobjs[i].inuse && hw_id(pobjs[i].p) == (long long)pobjs[i].id)
 			leaked++;
@@ -262,11 +261,15 @@ pool_exit(void)
 			free(pobjs[i].p);
 	npobjs = 0;
 #ifndef HC_BLACKBOX
-	pool_rec()->stacklen = 0;
-	pool_rec()->allocsize = mp_size;
-	pool_rec()->allocs = pool_static();
-	pool_rec()->nallocs = pool_rec()->nempties = 0;
-	pool_rec()->state = 0;
+	for (k = 1; k <= 4; k++) {
+		struct mpool * M = pool_rec_k(k);
+
+		M->stacklen = 0;
+		M->allocsize = k;
+		M->allocs = pool_static_k(k);
+		M->nallocs = M->nempties = 0;
+		M->state = 0;
+	}
 #endif
 	return (leaked);
 }
@@ -581,11 +584,22 @@ main(void)
 				(void)pool_exit();
 				mp_size = (size_t)k;
 #ifndef HC_BLACKBOX
-				/* (the pool taken is in its load-time state: every pool is put back when it is left) */
+				/* (the pool taken is in its load-time state: every pool is put back at an exit) */
 				assert(pool_rec()->stacklen == 0 && pool_rec()->allocsize == mp_size && pool_rec()->state == 0);
 #endif
 				printf("ok");
 				L2C();
+			}
+		} else if (hc_is("mp_use", 1)) {
+			/* switch the pool in use; nothing else happens, the other pools stay as they are */
+			unsigned long long k = num(1);
+
+			if (k < 1 || k > 4)
+				printf("bad-op");
+			else {
+				mp_size = (size_t)k;
+				printf("ok rf=%u", hw_rf());
+				mp_l2();
 			}
 		} else if (hc_is("mp_malloc", 0)) {
 			struct pobj * p;
@@ -614,15 +628,16 @@ main(void)
 				/* handing out an object that is still in use is reported as such */
 				printf("ok rf=%u obj=%lld%s", hw_rf(), id, pobjs[i].inuse ? " INUSE" : "");
 				pobjs[i].inuse = 1;
+				pobjs[i].pool = mp_size;
 			}
 			mp_l2();
 		} else if (hc_is("mp_freenth", 1)) {
-			/* free the in-use object with the (j mod count)-th smallest id */
+			/* free the in-use object of the pool in use with the (j mod count)-th smallest id */
 			size_t cnt = 0, j, best = 0;
 			uint64_t lastid = 0;
 
 			for (i = 0; i < npobjs; i++)
-				cnt += pobjs[i].inuse ? 1 : 0;
+				cnt += (pobjs[i].inuse && pobjs[i].pool == mp_size) ? 1 : 0;
 			if (cnt == 0)
 				printf("skip");
 			else {
@@ -630,7 +645,8 @@ main(void)
 					uint64_t bid = UINT64_MAX;
 
 					for (i = 0; i < npobjs; i++)
-						if (pobjs[i].inuse && pobjs[i].id < bid && (j == 0 || pobjs[i].id > lastid)) {
+						if (pobjs[i].inuse && pobjs[i].pool == mp_size && pobjs[i].id < bid &&
+						    (j == 0 || pobjs[i].id > lastid)) {
 							bid = pobjs[i].id;
 							best = i;
 						}
@@ -645,7 +661,7 @@ main(void)
 			uint64_t id = num(1);
 
 			for (i = 0; i < npobjs; i++)
-				if (pobjs[i].id == id && pobjs[i].inuse)
+				if (pobjs[i].id == id && pobjs[i].inuse && pobjs[i].pool == mp_size)
 					break;
 			if (i == npobjs)
 				printf("skip");
